@@ -17,7 +17,7 @@ def op(k, a=0, b=0, s=''):
 def ops_for(items):
     """the operation alphabet; items = the item texts occurring in the scope"""
     o = [op('next')]
-    o += [op('fwd', j) for j in (0, 1, 2, 3)] + [op('back', j) for j in (1, 2)]
+    o += [op('fwd', j) for j in (0, 1, 2, 3)] + [op('back', j) for j in (0, 1, 2)]
     o += [op('peek', j) for j in (-2, -1, 0, 1, 2)]
     o += [op('peekr', a, b) for a, b in ((0, 2), (-1, 1), (1, 4), (0, 0), (-2, 0))]
     o += [op('has', j) for j in (1, 2, 3)]
@@ -196,6 +196,7 @@ def scope(quick):
     from TexSoup.category import categorize
     for s in TOKEN_SOURCES:
         seqs.append([str(t) for t in tokenize(categorize(s))])
+    seqs += [list('a\r\nb'), list('\r\n'), list('a\n\rb')]          # single-character items that are line ends (string-backed flavour too)
     return seqs
 
 
